@@ -51,6 +51,14 @@ def faults_for(length):
         out.append({"mode": "raise-write", "prefix": p, "error": "nospace"})
     out.append({"mode": "short-oswrite", "prefix": max(1, length // 2)})
     out.append({"mode": "kill-after-replace"})
+    # the same faults where the user cannot create entries in the metafile's directory while the
+    # metafile itself is writable (a read-only directory, a sticky spool): no fallback may
+    # rewrite the metafile in place
+    out.append({"mode": "none", "readonly_dir": True})
+    for p in prefixes[1:]:
+        out.append({"mode": "kill-write", "prefix": p, "readonly_dir": True})
+        out.append({"mode": "raise-write", "prefix": p, "error": "nospace", "readonly_dir": True})
+    out.append({"mode": "short-oswrite", "prefix": max(1, length // 2), "readonly_dir": True})
     return out
 
 
@@ -132,7 +140,9 @@ def run_case(run, drv, case_seed, pool):
             if unenc and verdict != "old":
                 run.fail("impl-vs-spec", fc, {"why": "unencodable request changed the metafile"})
             # model tie
-            if f.get("mode") == "kill":
+            if f.get("readonly_dir"):
+                pass        # the standing condition is outside the operation model (Effects.lean)
+            elif f.get("mode") == "kill":
                 c = {0: 1, 1: 3}.get(f["k"], 4)
                 drv.ask(f"editcrash {c} 0 {hx(old)} {hx(new)}", ("state", fc, verdict))
             elif f.get("mode") == "kill-write":
